@@ -63,6 +63,30 @@ func runC04(r *Run) {
 				wr[fr.Name] = true
 			}
 		}
+		// … on every path: a shortcut that hands the route back as it is (because nothing seems to have been prepended)
+		// keeps what was derived under the sub-app's configuration
+		for _, n := range sortedKeys(derived) {
+			if !wr[n] {
+				continue
+			}
+			n := n
+			isStore := func(in ssa.Instruction) bool {
+				st, ok := in.(*ssa.Store)
+				if !ok {
+					return false
+				}
+				fa, ok := st.Addr.(*ssa.FieldAddr)
+				if !ok {
+					return false
+				}
+				fv := fieldVar(fa.X.Type(), fa.Field)
+				return fv != nil && fieldOwner(fv)+"."+fv.Name() == n
+			}
+			ownReturn := func(in ssa.Instruction) bool { _, ok := in.(*ssa.Return); return ok && in.Parent() == pre }
+			path, hit := reach(entryOf(pre), ownReturn, nil, isStore)
+			r.check(hit == nil, "addPrefixToRoute:"+n+":on-every-path", r.fpos(pre), "every return of addPrefixToRoute is preceded by the store",
+				"addPrefixToRoute can hand the route back without recomputing "+n+": for a mount on \"/\" the clone keeps the pattern, parser and parameter names as derived under the sub-app's CaseSensitive / StrictRouting, while requests are prepared under the parent's: "+pathString(r.P, path))
+		}
 		for _, n := range sortedKeys(derived) {
 			r.check(wr[n], "addPrefixToRoute:"+n, r.fpos(pre), "recomputed for the prefixed path",
 				n+" depends on the route path at registration ("+derived[n]+") but addPrefixToRoute does not recompute it for the prefixed path: under app.Use(\"/:tenant\", sub) the sub-app's routes keep their own parameter names while the matcher fills values for the prefixed pattern (Params(\"id\") returns the tenant; /plain answers 404)")
@@ -132,6 +156,56 @@ func runC04(r *Run) {
 				n++
 				cons := c.Common.Args[len(c.Common.Args)-1]
 				fromRoute := dependsOn(cons, func(v ssa.Value) bool { return v == ssa.Value(routeP) }) != nil
+				// on every way the list can be chosen: a fallback (`if len(parent's) == 0 { use the route's }`) drops
+				// the route's constraints exactly when the parent has constraints of its own
+				// (edges that are only taken when the route has no constraints of its own do not count)
+				empty := map[edge]bool{}
+				for _, br := range branchesIn(pre) {
+					lc, ok := stripValue(br.Info.Root).(*ssa.Call)
+					if !ok || calleeName(&lc.Call) != "builtin:len" || len(lc.Call.Args) != 1 {
+						continue
+					}
+					if dependsOn(lc.Call.Args[0], func(x ssa.Value) bool { return x == ssa.Value(routeP) }) == nil {
+						continue
+					}
+					if k, isInt := constInt(br.Info.Const); isInt && k == 0 {
+						switch br.Info.Op {
+						case token.GTR, token.NEQ:
+							empty[edge{br.If.Block(), br.slotWhenRel(false)}] = true
+						case token.EQL, token.LEQ:
+							empty[edge{br.If.Block(), br.slotWhenRel(true)}] = true
+						}
+					}
+				}
+				live := blocksReachable(pre.Blocks[0], empty, nil)
+				var allEdges func(v ssa.Value, d int) bool
+				allEdges = func(v ssa.Value, d int) bool {
+					if ph, ok := v.(*ssa.Phi); ok && d < 4 {
+						n := 0
+						for k, e := range ph.Edges {
+							pred := ph.Block().Preds[k]
+							dead := !live[pred]
+							for sl, su := range pred.Succs {
+								if su == ph.Block() && empty[edge{pred, sl}] {
+									dead = true
+								}
+							}
+							if dead {
+								continue
+							}
+							n++
+							if !allEdges(e, d+1) {
+								return false
+							}
+						}
+						return n > 0
+					}
+					if sl, ok := v.(*ssa.Slice); ok {
+						return allEdges(sl.X, d+1)
+					}
+					return dependsOn(v, func(x ssa.Value) bool { return x == ssa.Value(routeP) }) != nil
+				}
+				fromRoute = fromRoute && allEdges(cons, 0)
 				r.check(fromRoute, fmt.Sprintf("addPrefixToRoute:parseRoute#%d:route-constraints", n), r.pos(c.Instr), "the constraint list handed to the re-parse is derived from the route being re-prefixed",
 					"the mounted pattern is re-parsed with the parent application's custom constraints only: a constraint registered on the sub-app is unknown there, unknown names mean `no constraint`, and the mounted route accepts every value although the same route on the sub-app itself rejects it")
 			}
